@@ -51,6 +51,9 @@ type Spec struct {
 	NumRetries  int          `json:"num_retries,omitempty"`
 	StatusCodes []int        `json:"status_codes,omitempty"`
 	MaxRetries  int          `json:"max_retries,omitempty"`
+	MaxRequests int          `json:"max_requests,omitempty"` // Requests breaker of the cluster (the scripted pool accounts like the real pools)
+	RouteHeaderActions bool  `json:"route_header_actions,omitempty"` // the route appends x-tag: a to the request (append=true)
+	OrigTag     bool         `json:"orig_tag,omitempty"`    // the request already carries x-tag: orig
 	Filters     []FilterSpec `json:"filters,omitempty"`
 	Pool        []string     `json:"pool,omitempty"`
 	PoolDelayMs int          `json:"pool_delay_ms,omitempty"` // the first NewStream call takes this long (e.g. a connect attempt)
@@ -93,6 +96,7 @@ type Result struct {
 	Done      bool   `json:"done"`  // worker goroutine returned before the deadline
 	Gauge     int64  `json:"gauge"` // listener DownstreamRequestActive after - before
 	Res       int64  `json:"res"`   // Retries().Cur() after - before
+	Req       int64  `json:"req"`   // Requests().Cur() after - before (scripted pool accounting)
 	HasRes    bool   `json:"has_res"`
 	Active    int    `json:"active"` // proxy.ActiveStreamSize()
 	Err       string `json:"err,omitempty"`
@@ -143,6 +147,9 @@ func buildRequest(h *hist, connCtx context.Context) (context.Context, api.Header
 	hm := map[string]string{"service": "svc"}
 	if sp.NoMatch {
 		hm["service"] = "other"
+	}
+	if sp.OrigTag {
+		hm["x-tag"] = "orig"
 	}
 	if sp.HdrGlobalMs > 0 {
 		hm[types.HeaderGlobalTimeout] = strconv.Itoa(sp.HdrGlobalMs)
@@ -224,6 +231,7 @@ func runPrepared(p *prepared) (res *Result) {
 	res.readFiltr = rf
 	g0 := listenerGauge(h.listener)
 	r0, hasRes := retriesCur(h.cluster)
+	q0 := requestsCur(h.cluster)
 	sctx, hdr, data, trailers, sender := buildRequest(h, connCtx)
 	h.t0 = time.Now()
 	receiver := conn.ssc.cb.NewStreamDetect(sctx, sender, nil)
@@ -321,6 +329,7 @@ func runPrepared(p *prepared) (res *Result) {
 		r1, _ := retriesCur(h.cluster)
 		res.Res = r1 - r0
 		res.HasRes = true
+		res.Req = requestsCur(h.cluster) - q0
 	}
 	if p, ok := rf.(interface{ ActiveStreamSize() int }); ok {
 		res.Active = p.ActiveStreamSize()
